@@ -932,6 +932,20 @@ def run_check(ctx, pid, deps):
         res2 = _pool_map(process, extra)
         ctx.notes.append(f"search: oracle over {len(extra)} further histories")
         record_violations(ctx, pid, extra, res2)
+    if bad and not ctx.violations:
+        # no statement of the property text fails, but the implementation no longer is the verified model:
+        # report the smallest disagreeing history (and the config on which it disagrees) as replay input
+        b = min(bad, key=lambda i: (sum(results[i]["sizes"]), len(results[i]["sizes"]), i))
+        it = items[b]
+        full = not strictly_increasing(it["hist"]["times"])
+        singles = [process(mkitem(it["hist"], [cfg], pid, it["kind"], full=full)) for cfg in it["configs"]]
+        bad_c = vlib.run_cases(ctx, "diag", HEADER, [s["lit"] for s in singles], "gagree", shard=10)
+        for ci in (bad_c or [0])[:2]:
+            cfg = it["configs"][ci]
+            ctx.violations.append({"what": "implementation differs from the verified model on this input (no statement of the "
+                                           "property text fails on it: see `./check %s --replay` for both results)" % pid,
+                                   "input": {"history": it["hist"], "config": list(cfg), "kind": it["kind"]},
+                                   "found": False, "broken": ctx.broken[:3]})
     return vlib.finish(ctx, "", TRUSTED, ASSUME, RULE, exhaustive=True)
 
 
